@@ -245,7 +245,7 @@ spec fn fixed_header(t: Mode, now: u64, request_salt: Option<Seq<u8>>, len: nat)
     seq![mode_code(t)] + be_bytes(now as nat, 8) + (match request_salt { Some(s) => s, None => Seq::empty() }) + be_bytes(len, 2)
 }
 fn a22tcp__new_header(auth: &mut Authenticator, msg: &mut BytesMut, stream_type: &Mode, request_salt: Option<&[u8]>) -> (r: anyhow::Result<(Bytes, Bytes)>)
-    requires request_salt matches Some(s) ==> s@.len() <= 64,
+    requires old(auth).wf(), request_salt matches Some(s) ==> s@.len() <= 64,
     ensures final(auth).same_key(old(auth)),
         //#C12 C03
         r is Ok ==> final(auth).n() == inc2(old(auth).n()),
